@@ -7,7 +7,7 @@
                                    GIVEN cnt[e] = cnt and last[key(e), s] = last for it
      Published(n, cur, cnt, last)  job checkpoint n was written: split cursors + the keyed state
                                    read back from the operators' DKV checkpoints
-     Kill(nodes) / Restart(n, lost, w) / Final(...) / Reset(w) (next run; w = its first worker count)
+     Start(w) / Kill(nodes) / Restart(n, lost, w) / Final(...) / Reset (next run)
 
    and must be explained by the ABSTRACT exactly-once semantics, using
    Recovery's own state operators: st[o] is the state of the failure-free run
@@ -32,9 +32,7 @@ VARIABLES l,      \* next line of the trace
           tpub    \* published checkpoints: set of [n, cur]
 tvars == <<vars, l, pos, tpub>>
 
-\* the first generation of the first run has TraceLog[1].w workers when the trace opens with a Start event
-TraceInit == Init /\ nw = (IF Len(TraceLog) > 0 /\ TraceLog[1].op = "Start" THEN TraceLog[1].w ELSE W)
-             /\ l = 1 /\ pos = [s \in Splits |-> [o \in Workers |-> 0]] /\ tpub = {}
+TraceInit == Init /\ nw = W /\ l = 1 /\ pos = [s \in Splits |-> [o \in Workers |-> 0]] /\ tpub = {}
 
 Evt == TraceLog[l]
 IsEvent(e) == l <= Len(TraceLog) /\ Evt.op = e /\ l' = l + 1
@@ -101,11 +99,16 @@ TRestart ==
   /\ dead' = {}
   /\ UNCHANGED <<clean, tpub>> /\ Frozen
 
-TStart == IsEvent("Start") /\ Evt.w = nw /\ UNCHANGED <<nw, dead, st, clean, lostOps, pos, tpub>> /\ Frozen
+\* the first generation of a run has Evt.w workers (only as the first event of a run: nothing delivered, published or killed yet)
+TStart ==
+  /\ IsEvent("Start")
+  /\ Evt.w \in Counts /\ nw' = Evt.w
+  /\ dead = {} /\ tpub = {} /\ \A s \in Splits, o \in Workers : pos[s][o] = 0
+  /\ UNCHANGED <<dead, st, clean, lostOps, pos, tpub>> /\ Frozen
 
 TReset ==
   /\ IsEvent("Reset")
-  /\ nw' = (IF "w" \in DOMAIN Evt THEN Evt.w ELSE W)
+  /\ nw' = W
   /\ dead' = {} /\ st' = [o \in Workers |-> EmptySt] /\ clean' = TRUE /\ lostOps' = {}
   /\ pos' = [s \in Splits |-> [o \in Workers |-> 0]] /\ tpub' = {}
   /\ Frozen
